@@ -996,7 +996,7 @@ class Engine:
                         root = root[1]
                     if root[0] == 'L':
                         pre[i_] = self._read_lv(st, a[1])
-            st.events.append(('call', name, tuple(args), uid, fn.name, t['span'], tuple(sorted(pre.items()))))
+            st.events.append(('call', name, tuple(args), uid, fn.name, t['span'], tuple(sorted(pre.items())), st.epoch))
             # havoc everything reachable through &mut arguments
             for a, aty in zip(args, t.get('arg_tys', [])):
                 if aty.startswith('&mut') and a[0] == 'ref':
